@@ -807,7 +807,7 @@ func (ex *Exec) jump(st *State, fr *Frame, to *ssa.BasicBlock) {
 		}
 		fr.visits[to.Index]++
 		for _, ua := range ex.cfg.UnwindAssume {
-			if ua == fr.fn.String() && fr.visits[to.Index] >= 2 {
+			if ua == fr.fn.String() && fr.visits[to.Index] >= 4 {
 				ex.res.UnwindAssumed++
 				ex.endPath("unwind-assumed")
 			}
